@@ -52,42 +52,49 @@ namespace Gen
 
 /-! ### `_available` of the three roles -/
 
-theorem consAvail_ret_eq (p l L : Nat) (hL : 0 < L) (hpl : p ≤ l) (hd : l - p < L) (c n a : Nat) :
+theorem consAvail_ret_eq (p l L : Nat) (hL : 0 < L) (hL63 : L < 2 ^ 63) (hpl : p ≤ l) (hd : l - p < L) (c n a : Nat) :
     consAvail.ret (p % L) c (l % L) L n a = l - p := by
   unfold consAvail.ret
   have := mod_dist hL hpl hd
-  split at this <;> split <;> omega
+  have h1 : p % L < L := Nat.mod_lt _ hL
+  have h2 : l % L < L := Nat.mod_lt _ hL
+  split at this <;> (try split) <;> (try split) <;> omega
 
-theorem consAvail_cached_eq (i c s L n a : Nat) : consAvail.cached' i c s L n a = consAvail.ret i c s L n a := rfl
+theorem consAvail_cached_eq (i c s L n a : Nat) : consAvail.cached' i c s L n a = consAvail.ret i c s L n a := by
+  first | rfl | (unfold consAvail.cached' consAvail.ret; rfl)
 
-theorem workAvail_ret_eq (p l L : Nat) (hL : 0 < L) (hpl : p ≤ l) (hd : l - p < L) (c n a : Nat) :
+theorem workAvail_ret_eq (p l L : Nat) (hL : 0 < L) (hL63 : L < 2 ^ 63) (hpl : p ≤ l) (hd : l - p < L) (c n a : Nat) :
     workAvail.ret (p % L) c (l % L) L n a = l - p := by
   unfold workAvail.ret
   have := mod_dist hL hpl hd
-  split at this <;> split <;> omega
+  have h1 : p % L < L := Nat.mod_lt _ hL
+  have h2 : l % L < L := Nat.mod_lt _ hL
+  split at this <;> (try split) <;> (try split) <;> omega
 
-theorem workAvail_cached_eq (i c s L n a : Nat) : workAvail.cached' i c s L n a = workAvail.ret i c s L n a := rfl
+theorem workAvail_cached_eq (i c s L n a : Nat) : workAvail.cached' i c s L n a = workAvail.ret i c s L n a := by
+  first | rfl | (unfold workAvail.cached' workAvail.ret; rfl)
 
 /-- The producer sees the distance to the consumer *behind* it, minus the one slot that stays free. -/
-theorem prodAvail_ret_eq (p l L : Nat) (hL : 0 < L) (hlp : l ≤ p) (hd : p - l < L) (c n a : Nat) :
+theorem prodAvail_ret_eq (p l L : Nat) (hL : 0 < L) (hL63 : L < 2 ^ 63) (hlp : l ≤ p) (hd : p - l < L) (c n a : Nat) :
     prodAvail.ret (p % L) c (l % L) L n a = l + (L - 1) - p := by
   unfold prodAvail.ret
   have := mod_dist hL hlp hd
   have h1 : p % L < L := Nat.mod_lt _ hL
   have h2 : l % L < L := Nat.mod_lt _ hL
-  split at this <;> split <;> omega
+  split at this <;> (try split) <;> (try split) <;> omega
 
-theorem prodAvail_cached_eq (i c s L n a : Nat) : prodAvail.cached' i c s L n a = prodAvail.ret i c s L n a := rfl
+theorem prodAvail_cached_eq (i c s L n a : Nat) : prodAvail.cached' i c s L n a = prodAvail.ret i c s L n a := by
+  first | rfl | (unfold prodAvail.cached' prodAvail.ret; rfl)
 
 /-- No unchecked subtraction/addition in `_available` can go wrong for in-range indices. -/
 theorem prodAvail_safe (i s L : Nat) (hi : i < L) (hs : s < L) (hL : L < 2 ^ 63) (c n a : Nat) : prodAvail.safe i c s L n a := by
-  unfold prodAvail.safe; (repeat' apply And.intro) <;> omega
+  unfold prodAvail.safe; (repeat' apply And.intro) <;> first | trivial | omega
 
 theorem workAvail_safe (i s L : Nat) (hi : i < L) (hs : s < L) (hL : L < 2 ^ 63) (c n a : Nat) : workAvail.safe i c s L n a := by
-  unfold workAvail.safe; (repeat' apply And.intro) <;> omega
+  unfold workAvail.safe; (repeat' apply And.intro) <;> first | trivial | omega
 
 theorem consAvail_safe (i s L : Nat) (hi : i < L) (hs : s < L) (hL : L < 2 ^ 63) (c n a : Nat) : consAvail.safe i c s L n a := by
-  unfold consAvail.safe; (repeat' apply And.intro) <;> omega
+  unfold consAvail.safe; (repeat' apply And.intro) <;> first | trivial | omega
 
 /-! ### `advance_local`, `_advance`, `check` -/
 
@@ -99,7 +106,7 @@ theorem advanceLocal_cached_eq (i c s L n a : Nat) : advanceLocal.cached' i c s 
   unfold advanceLocal.cached'; omega
 
 theorem advanceLocal_safe (i c s L n a : Nat) (hi : i < L) (hn : n ≤ L) (hL : L < 2 ^ 63) : advanceLocal.safe i c s L n a := by
-  unfold advanceLocal.safe; (repeat' apply And.intro) <;> omega
+  unfold advanceLocal.safe; (repeat' apply And.intro) <;> first | trivial | omega
 
 theorem advance_pub_eq (i c s L n a : Nat) : advance.pub' i c s L n a = some (advance.index' i c s L n a) := rfl
 theorem advance_index_eq (i c s L n a : Nat) : advance.index' i c s L n a = advanceLocal.index' i c s L n a := rfl
@@ -141,7 +148,7 @@ theorem detGoBack_safe (p n L c : Nat) (hL : 0 < L) (hn : n ≤ p) (hnL : n ≤ 
     detGoBack.safe (p % L) c s L n a := by
   unfold detGoBack.safe
   have h1 : p % L < L := Nat.mod_lt _ hL
-  (repeat' apply And.intro) <;> omega
+  (repeat' apply And.intro) <;> first | trivial | omega
 
 /-! ### slice windows -/
 
@@ -177,10 +184,10 @@ theorem nextChunk_lens (i L n : Nat) (hi : i < L) (hn : n ≤ L) :
   refine ⟨?_, ?_, ?_, ?_, ?_⟩ <;> (try split) <;> omega
 
 theorem nextChunkMut_safe (i L n : Nat) (hi : i < L) (hn : n ≤ L) (hL : L < 2 ^ 63) : nextChunkMut.safe i 0 0 L n 0 := by
-  unfold nextChunkMut.safe; (repeat' apply And.intro) <;> omega
+  unfold nextChunkMut.safe; (repeat' apply And.intro) <;> first | trivial | omega
 
 theorem nextChunk_safe (i L n : Nat) (hi : i < L) (hn : n ≤ L) (hL : L < 2 ^ 63) : nextChunk.safe i 0 0 L n 0 := by
-  unfold nextChunk.safe; (repeat' apply And.intro) <;> omega
+  unfold nextChunk.safe; (repeat' apply And.intro) <;> first | trivial | omega
 
 /-- The mirrored (vmem) form hands out one slice `[index, index+n)` of the doubled address range. -/
 theorem nextChunkVm_window (i L n : Nat) (hi : i < L) (hn : n ≤ L) :
@@ -201,12 +208,18 @@ theorem sliceMultipleOf_safe (k a : Nat) (hk : 0 < k) : sliceMultipleOf.safe 0 0
 theorem pageSizeMul_spec (req ps : Nat) (hps : 0 < ps) :
     ps ∣ pageSizeMul 0 0 0 ps req 0 ∧ req ≤ pageSizeMul 0 0 0 ps req 0 ∧ pageSizeMul 0 0 0 ps req 0 < req + ps := by
   unfold pageSizeMul
-  refine ⟨Nat.dvd_mul_left _ _, ?_, ?_⟩
-  · have h := Nat.div_add_mod (req + ps - 1) ps
-    have h2 := Nat.mod_lt (req + ps - 1) hps
-    rw [Nat.mul_comm] at h; omega
-  · have h := Nat.div_add_mod (req + ps - 1) ps
-    rw [Nat.mul_comm] at h; omega
+  -- quotient/remainder facts for the two usual spellings (`div_ceil`, or "one more page if there is a remainder")
+  have a1 := Nat.div_add_mod req ps
+  have a2 := Nat.mod_lt req hps
+  have b1 := Nat.div_add_mod (req + ps - 1) ps
+  have b2 := Nat.mod_lt (req + ps - 1) hps
+  have a1' : req / ps * ps + req % ps = req := by rw [Nat.mul_comm]; exact a1
+  have b1' : (req + ps - 1) / ps * ps + (req + ps - 1) % ps = req + ps - 1 := by rw [Nat.mul_comm]; exact b1
+  refine ⟨?_, ?_, ?_⟩
+  · first
+      | exact Nat.dvd_mul_left _ _
+      | exact Nat.dvd_mul_right _ _
+  all_goals ((try split) <;> (try simp only [Nat.add_mul, Nat.mul_add, Nat.one_mul, Nat.mul_one]) <;> omega)
 
 end Gen
 end MRB
